@@ -191,7 +191,7 @@ func checkAgainstModel(err error, atoms []atom) (viols, classification) {
 			// equals what the server-side process would exit with.
 			if c.Tier == "coded" {
 				if got := exitcode.ExitCode(out); got != c.ExitCode {
-					vs.add("C20/exitcode/client-vs-server", "ExitCode(status error)=%d, ExitCode(err)=%d", got, c.ExitCode)
+					vs.add("C20/exitcode/client-vs-server", "ExitCode(API status error as a CLI client receives it)=%d, ADR on the model gives %d for the server-side error", got, c.ExitCode)
 				}
 			}
 			continue
